@@ -335,6 +335,12 @@ class Run:
             I.DBusInterface(sc.iface_name, *[I.Method(m, arguments=s_['in'], returns=s_['out'])
                                              for m, s_ in sorted(sc.methods.items())])
             ctx.count('first_interface_already_known')
+        if sc.idx % 5 == 4 and all(m_ == 'explicit' for m_ in sc.proxy_mode):
+            # the calling process knows an OLDER revision of the interface under the same name (declared and registered
+            # earlier, or learnt by an introspection): a proxy built from definitions handed in explicitly uses those
+            I.DBusInterface(sc.iface_name, I.Method('OnlyInTheOldRevision', arguments='i', returns='i'),
+                            *[I.Method(m, arguments='i', returns='i') for m in sorted(sc.methods)[:1]])
+            ctx.count('stale_definition_registered_under_the_same_name')
         proxies = []
         for i, c in enumerate(callers):
             if sc.proxy_mode[i] == 'explicit':
